@@ -124,7 +124,13 @@ func installInternalWriteMonitor(r *Run, n *Node, oracle string, modeOf func(db 
 			prevOp(detail)
 		}
 	}
-	n.K.OnCall = func(enter bool) {
+	n.K.OnCall = func(what string, enter bool) {
+		// only the application's own writes and truncations of the file; what
+		// LiteFS does on its own inside any other call (a lock release, a
+		// close, an unlink) is LiteFS's doing
+		if what != "write" && what != "setattr" {
+			return
+		}
 		n.K.Locks.mu.Lock()
 		if enter {
 			inClient[goid()]++
